@@ -709,26 +709,26 @@ func main() {
 	scenarios := map[string]func(r *vh.Run){
 		"stdio-held": func(r *vh.Run) {
 			for _, w := range []int{2, 3, 4, 8} {
-				stdioServer(r, r.Pick(6, 40), w, true)
+				stdioServer(r, r.Pick(6, 150), w, true)
 			}
 		},
-		"stdio-free": func(r *vh.Run) { stdioServer(r, r.Pick(10, 80), 16, false) },
+		"stdio-free": func(r *vh.Run) { stdioServer(r, r.Pick(10, 400), 16, false) },
 		"get": func(r *vh.Run) {
 			for _, pt := range []string{"sse.write.afterid", "sse.write.beforeterm", ""} {
 				for _, w := range []int{2, 4, 8} {
-					getStream(r, r.Pick(4, 30), w, pt)
+					getStream(r, r.Pick(4, 120), w, pt)
 				}
 			}
 		},
 		"post": func(r *vh.Run) {
 			for _, pt := range []string{"sse.write.afterid", "sse.write.beforeterm", ""} {
 				for _, s := range []int{2, 4} {
-					postStream(r, r.Pick(6, 40), s, pt)
+					postStream(r, r.Pick(6, 200), s, pt)
 				}
 			}
 		},
-		"legacy": func(r *vh.Run) { legacyStream(r, r.Pick(8, 60), 12) },
-		"client-stdin": func(r *vh.Run) { clientStdin(r, r.Pick(60, 600), 8) },
+		"legacy": func(r *vh.Run) { legacyStream(r, r.Pick(8, 300), 12) },
+		"client-stdin": func(r *vh.Run) { clientStdin(r, r.Pick(60, 3000), 8) },
 	}
 	if vh.ChildRole() == "c09-scen" {
 		cr := vh.NewChildRun("C09")
